@@ -225,6 +225,10 @@ class SpecLib:
                     ex.raise_(FileNotFoundError)
                 self.dict_del(ex, ex.fs, args[0])
                 return NONE
+        import io as _io
+        if obj is _io.StringIO and not args and not kwargs:
+            self.use("io.StringIO(): a text buffer; write(s) appends s, getvalue() returns what was written")
+            return VObj("StringIO", {"buffer": const_seq("str", "")}, fresh_name("sio"))
         import sys as _sys
         if obj is _sys.getfilesystemencoding:
             self.use("sys.getfilesystemencoding(): some fixed string (uninterpreted constant fs_encoding)")
@@ -345,6 +349,9 @@ class SpecLib:
             if not (isinstance(key, VInt) and key.py() == 0):
                 raise Unsupported("only element 0 of a split() result is modelled")
             return obj.fields["first"]
+        if isinstance(obj, VRef) and obj.cls in getattr(ex.world, "abstract_items", {}):
+            # an object the function only reads through obj[key]: the item is a spec function of (obj, key)
+            return ex.call(ex.world.spec_env[ex.world.abstract_items[obj.cls]], [obj, key], {})
         if isinstance(obj, (VObj, VRef)) and not (isinstance(obj, VObj) and obj.cls in REC_CLASSES):
             # a user class: obj[key] is obj.__getitem__(key)
             mod = ex.world.module_of_class(obj.cls)
@@ -420,9 +427,10 @@ class SpecLib:
         return VBox("list", VSeq("list", ety, t))
 
     def make_dict(self, ex, items):
-        if items:
-            raise Unsupported("non-empty dict display")
-        return VBox("dict", None, "dict")         # key / value types are fixed by the first store
+        box = VBox("dict", None, "dict")         # key / value types are fixed by the first store
+        for k, v in items:
+            self.dict_set(ex, box, k, v)
+        return box
 
     def make_iter(self, ex, it):
         """-> VBox('iter', (VSeq, cursor)) for symbolic sequences, or a Python list of V for
@@ -435,6 +443,32 @@ class SpecLib:
             # a list iterator reads the live list: keep the box, not a snapshot of its content
             b = VBox("iter", (it.val, VInt(0)), "iter")
             b.live = it
+            return b
+        if isinstance(it, VRef) and it.cls in getattr(ex.world, "abstract_iter", {}):
+            # an object the function only reads: iterating it yields the elements a spec function of the object names
+            return self.make_iter(ex, ex.call(ex.world.spec_env[ex.world.abstract_iter[it.cls]], [it], {}))
+        if isinstance(it, VBox) and it.kind == "dict" and isinstance(it.val, DictVal):
+            # iteration over a dict with symbolic keys: some sequence of exactly its keys, nothing assumed about the order (not
+            # even that two iterations of the same dict agree - weaker than Python, hence sound)
+            self.use("iteration over a dict: an arbitrary duplicate-free sequence consisting of exactly its keys (order unspecified)")
+            d = it.val
+            ks = sort_of(d.kty)
+            order = z3.Const(fresh_name("dict_order"), z3.SeqSort(ks))
+            posf = z3.Function(fresh_name("dict_pos"), ks, I)           # ghost: the position of a key in that sequence
+            k, i = z3.Const("k!do", ks), z3.Int("i!do")
+            n = z3.Length(order)
+            ex.define(z3.And(
+                z3.ForAll([k], z3.Implies(z3.Select(d.keys, k), z3.And(posf(k) >= 0, posf(k) < n, order[posf(k)] == k)),
+                          patterns=[posf(k)]),
+                z3.ForAll([i], z3.Implies(z3.And(i >= 0, i < n), z3.And(z3.Select(d.keys, order[i]), posf(order[i]) == i)),
+                          patterns=[order[i]])), key=("dict-order", order.get_id()))
+            ex._keep.append(order)
+            b = VBox("iter", (VSeq("list", d.kty, order), VInt(0)), "iter")
+            kty = d.kty
+            b.pos_fn = VFunc("builtin", "dict_pos", fn=lambda ex_, a, kw: VInt(posf(unwrap(kty, a[0]))))
+            # the instance of the second axiom for the element a loop takes (z3 does not E-match on seq.nth)
+            keys_ = d.keys
+            b.take_fact = lambda cur, x: z3.And(z3.Select(keys_, unwrap(kty, x)), posf(unwrap(kty, x)) == cur)
             return b
         if isinstance(it, (VObj, VRef)) and not (isinstance(it, VObj) and it.cls in REC_CLASSES):
             # a user class: iteration goes through __iter__ (which must be under a modular contract that returns a list)
@@ -516,7 +550,22 @@ class SpecLib:
         return None
 
     def seq_repeat(self, ex, s, n):
-        raise Unsupported("sequence repetition")
+        """n * "c" for a one-character constant: an uninterpreted function of n with the facts the callers need - its length is
+        max(n, 0) and no other character occurs in it (stated for the line terminators, which is what the guards ask about)"""
+        if not (s.kind in ("str", "bytes") and s.pyval is not None and len(s.pyval) == 1):
+            raise Unsupported("sequence repetition of anything but a one-character constant")
+        c = ord(s.pyval) if s.kind == "str" else s.pyval[0]
+        key = ("repeat", s.kind, c)
+        if key not in self._slice_fns:
+            self._slice_fns[key] = z3.Function("py_repeat_%s_%d" % (s.kind, c), I, SeqI)
+        self.use("n * 'c' (one-character constant): uninterpreted function of n; known: its length is max(n, 0), it contains no line "
+                 "terminator unless c is one")
+        app = self._slice_fns[key](n.t)
+        facts = [z3.Length(app) == z3.If(n.t > 0, n.t, 0)]
+        facts += [z3.Not(z3.Contains(app, z3.Unit(z3.IntVal(k)))) for k in (10, 13) if k != c]
+        ex.define(z3.And(*facts), key=("repeat", app.get_id()))
+        ex._keep.append(app)
+        return VSeq(s.kind, "int", app)
 
     def str_format(self, ex, fmt, args):
         # exception messages are dropped before they get here; what remains must be concrete
@@ -652,6 +701,8 @@ class SpecLib:
         return wrap(box.val.vty, z3.Select(box.val.vals, k))
 
     def dict_set(self, ex, box, key, v):
+        if getattr(box, "frozen", False):
+            raise Unsupported("store into a dict that is also held by value inside another container (aliasing not modelled)")
         if isinstance(box.val, ObjDict) or (box.val is None and isinstance(v, VObj) and v.cls not in REC_CLASSES):
             # objects with identity as values: only concrete keys (a Python dict of values)
             if not (isinstance(key, VSeq) and key.pyval is not None):
@@ -704,6 +755,8 @@ class SpecLib:
         raise Unsupported("havoc of %r" % (box,))
 
     def dict_del(self, ex, box, key):
+        if getattr(box, "frozen", False):
+            raise Unsupported("delete from a dict that is also held by value inside another container (aliasing not modelled)")
         if box.val is None:
             ex.raise_(KeyError)
         d = box.val
@@ -835,7 +888,7 @@ class SpecLib:
         FK, FV = self.rec_specs[f.name]
         ak, av = FK(*acts), FV(*acts)
         _, kty, vty = rec["ret"]
-        if ex._rec_depth == 0:
+        if ex._rec_depth == 0 and not rec.get("opaque"):
             key = ("unfold", f.name, ak.get_id())
             if key not in ex._axiom_keys:
                 ex._rec_depth += 1
@@ -856,6 +909,8 @@ class SpecLib:
     def _flat_sorts(self, kind):
         if isinstance(kind, tuple) and kind[0] == "list":
             return [sort_of(kind)]
+        if isinstance(kind, tuple):
+            return [sort_of(kind)]
         if kind == "int":
             return [I]
         if kind.startswith("opt:"):
@@ -873,6 +928,8 @@ class SpecLib:
             v = v.val               # total reading: the value of a known-non-None optional
         if isinstance(kind, tuple) and kind[0] == "list":
             return [self.seqval(v).t]
+        if isinstance(kind, tuple):
+            return [unwrap(kind, v)]
         if kind == "int":
             return [unwrap("int", v)]
         if kind.startswith("opt:"):
@@ -895,6 +952,9 @@ class SpecLib:
         if isinstance(kind, tuple) and kind[0] == "list":
             t = z3.Const(fresh_name("rf_" + nm), sort_of(kind))
             return [t], VSeq("list", kind[1], t)
+        if isinstance(kind, tuple):
+            t = z3.Const(fresh_name("rf_" + nm), sort_of(kind))
+            return [t], wrap(kind, t)
         if kind == "int":
             t = z3.Int(fresh_name("rf_" + nm))
             return [t], VInt(t)
@@ -978,7 +1038,21 @@ class SpecLib:
         def b_minmax(which):
             def f(ex, a, kw):
                 if len(a) == 1:
-                    raise Unsupported("%s of an iterable" % which)
+                    # max(list of int) / min(list of int): an uninterpreted function of the list (ValueError on the empty list);
+                    # known: the result is an element of the list
+                    sq = self.seqval(a[0])
+                    if not (isinstance(sq, VSeq) and sq.kind == "list" and sq.ety == "int"):
+                        raise Unsupported("%s of %r" % (which, a[0]))
+                    if not ex.spec_mode and ex.may_raise(sq.length() == 0):
+                        ex.raise_(ValueError)
+                    key = ("minmax", which)
+                    if key not in self._slice_fns:
+                        self._slice_fns[key] = z3.Function("py_%s_of_list" % which, z3.SeqSort(I), I)
+                    self.use("%s(list of int): uninterpreted function of the list; known: the result is an element of the list" % which)
+                    app = self._slice_fns[key](sq.t)
+                    ex.define(z3.Implies(z3.Length(sq.t) > 0, z3.Contains(sq.t, z3.Unit(app))), key=("minmax", app.get_id()))
+                    ex._keep.append(app)
+                    return VInt(app)
                 ts = [unwrap("int", x) for x in a]
                 r = ts[0]
                 for t in ts[1:]:
@@ -996,6 +1070,23 @@ class SpecLib:
                 res = z3.Or(res, self.isinstance1(ex, v, k))
             return VBool(z3.simplify(res))
         B_["isinstance"] = b_isinstance
+
+        def b_hasattr(ex, a, kw):
+            v, nm = a
+            if not (isinstance(nm, VSeq) and nm.pyval is not None):
+                raise Unsupported("hasattr with a symbolic name")
+            if isinstance(v, VBox) or isinstance(v, VSeq):
+                real = {"list": list, "dict": dict, "set": set, "str": str, "bytes": bytes}.get(v.kind)
+                if real is None:
+                    raise Unsupported("hasattr on %r" % (v,))
+                return VBool(hasattr(real, nm.pyval))
+            if isinstance(v, (VRef, VObj)) and (v.cls, nm.pyval) in getattr(ex.world, "abstract_hasattr", {}):
+                # whether the object has the attribute is a spec predicate of the object
+                return ex.call(ex.world.spec_env[ex.world.abstract_hasattr[(v.cls, nm.pyval)]], [v], {})
+            if isinstance(v, (VRef, VObj)) and v.cls in getattr(ex.world, "abstract_attrs", {}):
+                return VBool(nm.pyval in ex.world.abstract_attrs[v.cls])
+            raise Unsupported("hasattr on %r" % (v,))
+        B_["hasattr"] = b_hasattr
 
         def b_ord(ex, a, kw):
             v = a[0]
@@ -1416,6 +1507,17 @@ class SpecLib:
                 k = k.py()
             return self.re_group(ex, mo, k)
         MD[("Match", "group")] = m_group
+
+        def sio_write(ex, a, kw):
+            f, data = a
+            if not (isinstance(data, VSeq) and data.kind == "str"):
+                raise Unsupported("StringIO.write of %r" % (data,))
+            cur = f.fields["buffer"]
+            f.fields["buffer"] = VSeq("str", "int", z3.Concat(cur.t, data.t),
+                                      py=(cur.pyval + data.pyval if cur.pyval is not None and data.pyval is not None else None))
+            return VInt(z3.Length(data.t))
+        MD[("StringIO", "write")] = sio_write
+        MD[("StringIO", "getvalue")] = lambda ex, a, kw: a[0].fields["buffer"]
 
         def tw_write(ex, a, kw):
             self.use("ghost file system: write(s) either appends s or raises OSError after appending an arbitrary prefix")
